@@ -33,6 +33,23 @@ META = {
 n_b, n_o, n_t = Poly.sym("n_b"), Poly.sym("n_o"), Poly.sym("n_t")
 
 
+def simplify_divmod(p):
+    """x div m * m + x mod m  ->  x   (applied until nothing changes; coefficients may be polynomials)"""
+    changed = True
+    while changed:
+        changed = False
+        for a in list(p.atoms()):
+            if a[0] == "app" and a[1] == "mod" and len(a) == 4 and p.degree_in(a) == 1:
+                X, m = a[2], a[3]
+                da = ("app", "div", X, m)
+                C = p.coeff_of(a)
+                if da in p.atoms() and p.degree_in(da) == 1 and p.coeff_of(da) == C * Poly.lift(m):
+                    p = p.without(a).without(da) + C * Poly.lift(X)
+                    changed = True
+                    break
+    return p
+
+
 def term_ops_of(v, acc=None, depth=0):
     """operators of all Terms inside a value (bounded)"""
     acc = acc if acc is not None else []
@@ -209,7 +226,7 @@ def run(ctx, repo, tier):
         ok = isinstance(res, Grid) and res.ndim == 1 and res.dim_len(0) == m and isinstance(res.elem, Num)
         if ok:
             ia = Poly.app("at", "I", Poly.atom(res.dims[0][0][0]))
-            ok = res.elem.p == Poly.app(digit, ia, n_b)
+            ok = simplify_divmod(res.elem.p) == Poly.app(digit, ia, n_b)
         if ok:
             ctx.ok("LAYOUT", f"C09.{helper}.subset", f"{helper}(I)[k] = I[k] {digit} n_b for every index subset I", hw, derived=vstr(res)[:150])
         else:
@@ -225,7 +242,7 @@ def run(ctx, repo, tier):
         # default: all rows
         res = interp.call_value(interp.getattr(fg, helper), [], {}, None, None)
         ok = isinstance(res, Grid) and res.ndim == 1 and res.dim_len(0) == N and isinstance(res.elem, Num) and \
-            res.elem.p == Poly.app(digit, Poly.atom(res.dims[0][0][0]), n_b)
+            simplify_divmod(res.elem.p) == Poly.app(digit, Poly.atom(res.dims[0][0][0]), n_b)
         if ok:
             ctx.ok("LAYOUT", f"C09.{helper}.all", f"{helper}() has len(self) entries, entry n = {text}", hw, derived=vstr(res)[:150])
         else:
